@@ -725,7 +725,11 @@ class CliApplication:
         retval = []
 
         for tmp in potential_matches:
+            # Only count the first subnet which contains this word...
+            word_matched = False
             for subnet in subnets:
+                if word_matched:
+                    break
                 try:
                     if subnet.version == 4:
                         addr = IPv4Obj(tmp)
@@ -736,6 +740,7 @@ class CliApplication:
                     continue
 
                 if (addr.version == subnet.version) and (addr in subnet):
+                    word_matched = True
 
                     if unique_matches:
                         append_addr = False
